@@ -50,7 +50,15 @@ fn r#gen(rng: &mut Rng, thorough: bool) -> Scn {
             s.iv = gen_ctr_iv(rng, fl, s.bs);
             limit_blocks(fl)
         }
-        None => u128::MAX,
+        None => {
+            if s.cipher.has_dec() && rng.chance(2, 5) {
+                // E(IV) next to the wrap of the 128-bit state
+                let mut b = (u128::MAX - rng.below(64) as u128).to_le_bytes().to_vec();
+                crate::factory::prim_dec(s.cipher, &s.key, &mut b);
+                s.iv = b;
+            }
+            u128::MAX
+        }
     };
     let bs = s.bs as u128;
     // byte positions must be expressible in u128 and stay clear of the keystream end
